@@ -199,14 +199,27 @@ def make_target(spec):
         cls = backend(be)
         hi = lo + nm
         kw = {"min_inclusive": lo}
-        if incl:
+        if incl == "obj":
+            # the bounds are Integer objects of the caller, made once and passed to EVERY call (the library itself passes
+            # Integer bounds, e.g. candidate - 2 in Miller-Rabin): they must not be consumed
+            kw = {"min_inclusive": cls(lo), "max_inclusive": cls(hi)}
+        elif incl:
             kw["max_inclusive"] = hi
         else:
             kw["max_exclusive"] = hi + 1
         tg.fam = "Integer.random_range"
-        tg.name = "Integer%s.random_range(min_inclusive=%d, %s=%d, randfunc=tape)" % (
-            be, lo, "max_inclusive" if incl else "max_exclusive", hi if incl else hi + 1)
-        tg.run = lambda t: int(cls.random_range(randfunc=t, **kw))
+        tg.name = "Integer%s.random_range(min_inclusive=%d, %s=%d, randfunc=tape)%s" % (
+            be, lo, "max_inclusive" if incl else "max_exclusive", hi if incl else hi + 1,
+            " with the same two Integer objects as bounds in every call" if incl == "obj" else "")
+        if incl == "obj":
+            def run(t):
+                v = int(cls.random_range(randfunc=t, **kw))
+                if int(kw["min_inclusive"]) != lo or int(kw["max_inclusive"]) != hi:
+                    return hi + 10 ** 6 + int(kw["max_inclusive"])       # outside the domain: the caller's bound object was changed
+                return v
+            tg.run = run
+        else:
+            tg.run = lambda t: int(cls.random_range(randfunc=t, **kw))
         tg.domain = range(lo, hi + 1)
 
         def att(rd):
